@@ -572,7 +572,8 @@ impl<'a, B: BitmapSlice> VolatileSlice<'a, B> {
             // - size is always a multiple of alignment, so treating *mut T as *mut u8 is fine
             unsafe { copy_from_volatile_slice(buf.as_mut_ptr() as *mut u8, self, total) }
         } else {
-            let count = self.size / size_of::<T>();
+            // A zero-sized `T` occupies no memory: any number of elements fits.
+            let count = self.size.checked_div(size_of::<T>()).unwrap_or(buf.len());
             let source = self.get_array_ref::<T>(0, count).unwrap();
             source.copy_to(buf)
         }
@@ -650,7 +651,8 @@ impl<'a, B: BitmapSlice> VolatileSlice<'a, B> {
             // - size is always a multiple of alignment, so treating *mut T as *mut u8 is fine
             unsafe { copy_to_volatile_slice(self, buf.as_ptr() as *const u8, total) };
         } else {
-            let count = self.size / size_of::<T>();
+            // A zero-sized `T` occupies no memory: any number of elements fits.
+            let count = self.size.checked_div(size_of::<T>()).unwrap_or(buf.len());
             // It's ok to use unwrap here because `count` was computed based on the current
             // length of `self`.
             let dest = self.get_array_ref::<T>(0, count).unwrap();
@@ -1192,9 +1194,9 @@ where
 
         let guard = self.ptr_guard();
         let mut ptr = guard.as_ptr() as *const Packed<T>;
-        let start = ptr;
+        let count = buf.len().min(self.len());
 
-        for v in buf.iter_mut().take(self.len()) {
+        for v in buf.iter_mut().take(count) {
             // SAFETY: read_volatile is safe because the pointers are range-checked when
             // the slices are created, and they never escape the VolatileSlices.
             // ptr::add is safe because get_array_ref() validated that
@@ -1205,8 +1207,7 @@ where
             }
         }
 
-        // SAFETY: It is guaranteed that start and ptr point to the regions of the same slice.
-        unsafe { ptr.offset_from(start) as usize }
+        count
     }
 
     /// Copies as many bytes as possible from this slice to the provided `slice`.
